@@ -217,6 +217,21 @@ class World(object):
             for kk, (c, vc) in enumerate(zip('xyz', 'uvw')):
                 pa.get(vc, only_real_particles=False)[:] = vel[:, kk]
                 pa.get(c, only_real_particles=False)[:] += dt * vel[:, kk]
+        # now and then a fluid particle near the outlet plane jumps the
+        # whole outlet zone in one step (a fast jet, a thin zone)
+        nfl = self.fluid.get_number_of_particles()
+        if nfl and rng.random() < 0.2:
+            d = self._disp(self.fluid, self.r_out, self.n_out)
+            near = np.nonzero((d > -2.5 * self.dx) & (d <= 0))[0]
+            if len(near):
+                pick = near[rng.random(len(near)) < 0.5][:3]
+                for i in pick:
+                    jump = (self.L_out + rng.uniform(0.2, 1.5) * self.dx) - \
+                        d[i]
+                    for kk, c in enumerate('xyz'):
+                        self.fluid.get(c, only_real_particles=False)[i] += \
+                            jump * self.n_out[kk]
+                self.zone_jumps = getattr(self, 'zone_jumps', 0) + len(pick)
         # keep clear of the decision thresholds (the property does not say
         # on which side an exactly-on-the-plane particle is)
         for pa, ref, nrm, L in ((self.inlet, self.r_in, self.n_in, None),
@@ -554,6 +569,7 @@ def run_history(seed, k, mon):
                                        only_real_particles=False)[:] = ids
         nf = W.fluid.get_number_of_particles()
         mon['fluid_max'] = max(mon.get('fluid_max', 0), nf)
+    mon['zone_jumps'] = mon.get('zone_jumps', 0) + getattr(W, 'zone_jumps', 0)
     return desc, None
 
 
@@ -593,7 +609,7 @@ def run(tier):
     c = m.counters
     for need, least in (('entered', 200), ('left', 200), ('deleted', 100),
                         ('multi_entry_updates', 20),
-                        ('multi_exit_updates', 20)):
+                        ('multi_exit_updates', 20), ('zone_jumps', 5)):
         if c.get(need, 0) < least:
             v.inconclusive_because('%s = %d (< %d)' % (need, c.get(need, 0),
                                                        least))
@@ -611,7 +627,8 @@ def run(tier):
              'checked against the pre-call snapshot',
         assumptions=['no particle is placed within 1e-9 of a zone plane '
                      '(which side it counts as is not specified)',
-                     'a step moves particles by less than a zone length',
+                     'inlet particles move less than a zone length per step '
+                     '(fluid particles may jump the whole outlet zone)',
                      'ghost arrays are kept mirror images of their originals '
                      'by the mover (in a simulation: by the scheme)'],
         min_evaluations=500, min_distinct=20)
